@@ -58,6 +58,8 @@ enum Op {
     GP,
     G,
     RS,
+    /// restart; the new incarnation is configured with this gc_grace_period (seconds)
+    RSG(u64),
     PQ { q: u32, s: Ts, e: Ts },
     P { q: u32, ps: Vec<u32> },
     U { q: u32 },
@@ -111,6 +113,7 @@ fn op_text(o: &Op) -> String {
         Op::GP => "GP".into(),
         Op::G => "G".into(),
         Op::RS => "RS".into(),
+        Op::RSG(g) => format!("RSG {}", g),
         Op::PQ { q, s, e } => format!("PQ {} {} {}", q, ts_text(s), ts_text(e)),
         Op::P { q, ps } => format!("P {} {}", q, list_text(ps)),
         Op::U { q } => format!("U {}", q),
@@ -152,6 +155,7 @@ fn case_parse(line: &str) -> Case {
             "GP" => Op::GP,
             "G" => Op::G,
             "RS" => Op::RS,
+            "RSG" => Op::RSG(f[1].parse().unwrap()),
             "PQ" => Op::PQ { q: f[1].parse().unwrap(), s: ts_parse(f[2]), e: ts_parse(f[3]) },
             "P" => Op::P { q: f[1].parse().unwrap(), ps: list_parse(f.get(2).copied().unwrap_or("")) },
             "U" => Op::U { q: f[1].parse().unwrap() },
@@ -429,13 +433,25 @@ impl World {
             if let Ok(b) = r.bytes().await {
                 if let Ok(serde_json::Value::Array(a)) = serde_json::from_slice::<serde_json::Value>(&b) {
                     for e in a {
-                        let p = e["path"].as_str().and_then(pid).unwrap_or(999_999);
-                        let ts = e["scheduled_at"]
-                            .as_str()
-                            .and_then(|s| chrono::DateTime::parse_from_rfc3339(s).ok())
-                            .and_then(|d| d.timestamp_nanos_opt())
-                            .unwrap_or(i64::MIN);
-                        v.push((p, (ts - self.t0).div_euclid(S)));
+                        // tolerate renamed / additional fields: the path is the string field that
+                        // names a data file, the time is `scheduled_at` or else any field that
+                        // parses as an RFC 3339 instant
+                        let obj = e.as_object().cloned().unwrap_or_default();
+                        let p = obj
+                            .get("path")
+                            .and_then(|x| x.as_str())
+                            .and_then(pid)
+                            .or_else(|| obj.values().filter_map(|x| x.as_str()).find_map(pid))
+                            .unwrap_or(999_999);
+                        let parse = |x: &serde_json::Value| {
+                            x.as_str().and_then(|s| chrono::DateTime::parse_from_rfc3339(s).ok()).and_then(|d| d.timestamp_nanos_opt())
+                        };
+                        let ts = obj.get("scheduled_at").and_then(parse).or_else(|| obj.values().find_map(parse));
+                        let rel = match ts {
+                            Some(ts) => ts.saturating_sub(self.t0).div_euclid(S),
+                            None => i64::MIN / S,
+                        };
+                        v.push((p, rel));
                     }
                 }
             }
@@ -973,11 +989,19 @@ async fn run_case(case: &Case) -> Outcome {
                 }
                 w.observe().await
             }
-            Op::RS => {
+            Op::RS | Op::RSG(_) => {
                 // new Compactor; `run` loads the file, then starts its first cycle at once
+                if let Op::RSG(g) = op {
+                    w.cfg.gc_grace_period = Duration::from_secs(*g);
+                    w.grace_s = i64::try_from(*g).unwrap_or(i64::MAX);
+                    w.bump("restart.with_new_grace");
+                }
                 w.restart().await;
                 w.bump("restart");
-                mline.push("RS".into());
+                match op {
+                    Op::RSG(g) => mline.push(format!("RSG {}", (*g as i128 * S as i128).min(i64::MAX as i128))),
+                    _ => mline.push("RS".into()),
+                }
                 toks.push("-".into());
                 for (m, t) in std::mem::take(&mut w.synthetic) {
                     mline.push(m);
@@ -1100,12 +1124,29 @@ async fn run_case(case: &Case) -> Outcome {
 
 /// Runs a case (repeating it when the machine stalled for longer than the
 /// clock phase allows) and asks the model.  Returns (outcome, model output, model's class flag).
+/// one case, a panic of the implementation or of the harness itself becomes an oracle failure
+fn run_case_safe(rt: &tokio::runtime::Runtime, case: &Case) -> Outcome {
+    match csv_common::catch(std::panic::AssertUnwindSafe(|| rt.block_on(run_case(case)))) {
+        Ok(o) => o,
+        Err(msg) => {
+            verif_hooks::set_clock_offset_nanos(0);
+            Outcome {
+                impl_out: format!("PANIC {}", msg.chars().take(160).collect::<String>()),
+                model_line: format!("cfg 0 {} 0", case.retention_days),
+                violations: vec![("".into(), format!("the case panicked: {}", msg.chars().take(300).collect::<String>()))],
+                timing_invalid: false,
+                stats: BTreeMap::new(),
+            }
+        }
+    }
+}
+
 fn run_checked(rt: &tokio::runtime::Runtime, model: &mut Model, case: &Case) -> (Outcome, String, bool) {
-    let mut out = rt.block_on(run_case(case));
+    let mut out = run_case_safe(rt, case);
     let mut tries = 0;
     while out.timing_invalid && tries < 4 {
         tries += 1;
-        out = rt.block_on(run_case(case));
+        out = run_case_safe(rt, case);
     }
     let m = model.ask(&out.model_line);
     let (body, flag) = match m.split_once("#K=") {
@@ -1405,6 +1446,7 @@ fn gen_case(rng: &mut Rng, report: &mut Report) -> Case {
     let mut queries: Vec<u32> = Vec::new();
     let mut next_q = 1u32;
     let mut next_foreign = 60u32;
+    let mut cur_grace = grace_s;
     let mut open = false;
     let tick = |rng: &mut Rng, grace: u64| -> i64 {
         let grace = if grace > 100_000 { 301 } else { grace };
@@ -1532,7 +1574,15 @@ fn gen_case(rng: &mut Rng, report: &mut Report) -> Case {
                 open = true;
             }
         } else if r < 93 {
-            ops.push(Op::RS);
+            if l0 == 0 && grace_s <= 300 && rng.chance(2, 5) {
+                // the operator changes gc_grace_period: shorter -> longer and longer -> shorter
+                let g = *rng.pick(&[0u64, 1, 2, 5, 30, 300]);
+                report.bump(if g > cur_grace { "gen.restart.longer_grace" } else { "gen.restart.other_grace" });
+                cur_grace = g;
+                ops.push(Op::RSG(g));
+            } else {
+                ops.push(Op::RS);
+            }
             open = true;
             report.bump("gen.restart");
         } else if r < 96 && l0 == 0 {
@@ -1566,7 +1616,7 @@ fn gen_case(rng: &mut Rng, report: &mut Report) -> Case {
         ops.push(Op::GP);
     }
     // let the grace period pass and collect what is left
-    ops.push(Op::T(if grace_s > 100_000 { 301 } else { grace_s as i64 } + rng.range_i64(0, 2)));
+    ops.push(Op::T(if grace_s > 100_000 { 301 } else { cur_grace.max(grace_s) as i64 } + rng.range_i64(0, 2)));
     for q in queries {
         if rng.chance(2, 3) {
             ops.push(Op::U { q });
@@ -1748,6 +1798,46 @@ fn corpus() -> Vec<Case> {
                 Op::U { q: 1 },
                 Op::RS,
                 Op::GP,
+                Op::O,
+            ],
+        });
+        // persisted under a short grace period, restarted with a LONGER one: the file must wait for
+        // the grace period of the incarnation that deletes it (and the other way round)
+        v.push(Case {
+            backend,
+            grace_s: 1,
+            retention_days: 90,
+            l0: 0,
+            ops: vec![
+                Op::R { p: 1, mn: rel(-10), mx: rel(-5) },
+                Op::R { p: 2, mn: rel(-10), mx: rel(0) },
+                Op::C { tgt: 2, srcs: vec![1] },
+                Op::G,
+                Op::T(2),
+                Op::RSG(30),
+                Op::GP,
+                Op::T(27),
+                Op::G,
+                Op::T(1),
+                Op::G,
+                Op::O,
+            ],
+        });
+        v.push(Case {
+            backend,
+            grace_s: 300,
+            retention_days: 90,
+            l0: 0,
+            ops: vec![
+                Op::R { p: 1, mn: rel(-10), mx: rel(-5) },
+                Op::R { p: 2, mn: rel(-10), mx: rel(0) },
+                Op::C { tgt: 2, srcs: vec![1] },
+                Op::G,
+                Op::T(4),
+                Op::RSG(5),
+                Op::GP,
+                Op::T(1),
+                Op::G,
                 Op::O,
             ],
         });
@@ -1941,7 +2031,7 @@ fn interleavings() -> Vec<Case> {
 }
 
 fn nontrivial(c: &Case) -> bool {
-    c.ops.iter().any(|o| matches!(o, Op::G | Op::GF | Op::RS)) && c.ops.iter().any(|o| matches!(o, Op::R { .. }))
+    c.ops.iter().any(|o| matches!(o, Op::G | Op::GF | Op::RS | Op::RSG(_))) && c.ops.iter().any(|o| matches!(o, Op::R { .. }))
 }
 
 fn main() {
@@ -2101,7 +2191,7 @@ fn main() {
                     }
                     budget -= 1;
                     let c = Case { ops: cand.to_vec(), ..case.clone() };
-                    let o = rt.block_on(run_case(&c));
+                    let o = run_case_safe(&rt, &c);
                     o.violations.iter().any(|(k, _)| *k == cl || (cl.is_empty() && k != KNOWN_CLASS))
                 });
                 json!({"case": case_text(&Case { ops: shrunk_ops, ..case.clone() }), "original": line})
